@@ -120,6 +120,14 @@ class Rec:
     def __neg__(self):
         return -self.read()
 
+    def __eq__(self, o):
+        return self._binop(o, np.equal)
+
+    def __ne__(self, o):
+        return self._binop(o, np.not_equal)
+
+    __hash__ = None
+
     def __lt__(self, o):
         return self._binop(o, np.less)
 
